@@ -290,7 +290,7 @@ Qed.
 Definition good (e : entry) : Prop :=
   snd e <= MaximumTriggerGas /\ snd e <= t_prepaid (fst e) /\
   In (t_owner (fst e)) (t_auths (fst e)) /\
-  forall a, In a (t_actions (fst e)) -> In (a_from a) (t_auths (fst e)).
+  forall a x, In a (t_actions (fst e)) -> In x (a_signers a) -> In x (t_auths (fst e)).
 
 Record Inv (s : state) (det disp : list entry) : Prop := {
   I_one : forall i, (cnt (reg s) i + cnt det i <= 1)%nat;
@@ -334,7 +334,7 @@ Qed.
 (** what an accepted creation looks like *)
 Lemma create_accepted h t s sg au ev acts g u s' :
   apply_tx h t s (TCreate sg au ev acts g u) = (s', true) ->
-  sg = au /\ (forall a, In a acts -> In (a_from a) au) /\ acts <> [] /\ event_valid_ctx h t ev = true /\
+  sg = au /\ (forall a x, In a acts -> In x (a_signers a) -> In x au) /\ acts <> [] /\ event_valid_ctx h t ev = true /\
   exists owner rest lim,
     au = owner :: rest /\ lim <= MaximumTriggerGas /\ lim <= g /\
     s' = {| reg := reg s ++ [({| t_id := next_id s; t_owner := owner; t_event := ev; t_actions := acts;
@@ -353,7 +353,8 @@ Proof.
   unfold validate_basic in Hv. apply andb_true_iff in Hv. destruct Hv as [Hv Ha].
   apply andb_true_iff in Hv. destruct Hv as [Hne _].
   split; [assumption|]. split.
-  { intros a Hin. rewrite forallb_forall in Ha. specialize (Ha a Hin). unfold action_ok in Ha. apply mem_In. assumption. }
+  { intros a x Hin Hx. rewrite forallb_forall in Ha. specialize (Ha a Hin). unfold action_ok in Ha.
+    rewrite forallb_forall in Ha. apply mem_In. apply Ha. assumption. }
   split. { destruct acts; [discriminate|congruence]. }
   split; [reflexivity|].
   exists owner, rest, (N.min (g - u - SetGasLimitCost) MaximumTriggerGas).
@@ -581,7 +582,7 @@ Lemma action_signers b0 bs b s outs s' o :
   run (init b0) bs = (s, outs) -> step s b = (s', o) ->
   forall e ok, In (e, ok) (o_disp o) ->
   In (t_owner (fst e)) (t_auths (fst e)) /\
-  forall a, In a (t_actions (fst e)) -> In (a_from a) (t_auths (fst e)).
+  forall a x, In a (t_actions (fst e)) -> In x (a_signers a) -> In x (t_auths (fst e)).
 Proof.
   intros Hr Hs e ok Hin. apply Inv_history in Hr. destruct Hr as [_ _ H3 H4 _].
   unfold step in Hs.
